@@ -61,7 +61,20 @@ def build_scfg(desc, payload="basic"):
         exec(compile(desc["src"], "<front>", "exec"), ns)
         return ByteFlow.from_bytecode(ns["f"]).scfg
     names = desc["names"]
-    return SCFG({n: make_block(n, s, payload, i) for i, (n, s) in enumerate(zip(names, desc["succ"]))})
+    graph = {n: make_block(n, s, payload, i) for i, (n, s) in enumerate(zip(names, desc["succ"]))}
+    c = desc.get("counter_start")
+    if c is None:
+        return SCFG(graph)
+    # a name generator that has been used before (the public constructor takes one): every kind of name this graph
+    # needs starts at index c, so that e.g. c = 9 makes the indices cross from one to two digits at once
+    from numba_scfg.core.datastructures.scfg import NameGenerator
+
+    probe = SCFG(dict(graph))
+    try:
+        probe.restructure()
+    except Exception:
+        pass
+    return SCFG(graph, name_gen=NameGenerator(kinds={k: c for k in probe.name_gen.kinds}))
 
 
 def orig_map(desc):
@@ -684,6 +697,19 @@ def check_struct(scfg, orig=None):
                 level(b.subregion, b)
 
     level(scfg, scfg.region)
+    # the continuations a region REALLY has (targets of the blocks inside it that lie outside it, declared back edges
+    # aside) are the ones it declares: "each branch region has exactly one continuation" is a statement about where
+    # control goes, not about the region block's own tuple
+    for rn, R in regs.items():
+        inside = set(flatten(R.subregion)) | set(regions(R.subregion)) | {rn}
+        actual = []
+        for n, b in flatten(R.subregion).items():
+            for t in b._jump_targets:
+                if t not in inside and t not in b.backedges and t not in actual:
+                    actual.append(t)
+        extra = [t for t in actual if t not in R._jump_targets]
+        if extra:
+            errs.append(("region-has-undeclared-continuation", R.kind, rn, tuple(extra), tuple(R._jump_targets)))
     return errs
 
 
